@@ -11,7 +11,10 @@ Clause -> case family
   "every 16-bit statusword is reported as exactly the state whose pattern it
    matches, or unknown"                      fam=decode  (all 65 536 words; carried
                                              by SDO, by an event TPDO at byte offset
-                                             0, by a TPDO at byte offset 1 / 4)
+                                             0, by a TPDO at byte offset 1 / 4, by
+                                             the second / the first of two valid
+                                             TPDOs that both map the statusword:
+                                             the word received last counts)
   "for every (state, target) pair assigning a commandable target brings the
    drive into that state in finitely many steps"
                                              fam=pair    8 x 8 pairs x k x transport
@@ -26,16 +29,26 @@ Clause -> case family
                                              fam=pair / hist with target in {NOT
                                              READY TO SWITCH ON, FAULT REACTION
                                              ACTIVE, FAULT}: exception (or silent
-                                             no-op when the drive is in that state)
-                                             and no controlword on the wire
+                                             no-op when the drive is in that state
+                                             at the master's first look - not after
+                                             watching it get there by itself, see
+                                             REFUSE_LOOKS_*) and no controlword on
+                                             the wire
   "automatic transitions before or after the library's status reads"
-                                             k = 0..3 observations of the transient
-                                             state (reads of 0x6041, or bus cycles in
-                                             the cyclic variants)
+                                             k observations of the transient state
+                                             (reads of 0x6041, bus cycles in the
+                                             cyclic variants, waiting periods with
+                                             event-driven TPDOs): every k in 0..24,
+                                             31, 40 with the statusword by SDO (the
+                                             transition is swept across every read
+                                             of the first assignment steps), sparser
+                                             sets elsewhere (k_values)
   "controlword and statusword carried by SDO or by PDO"
                                              transports sdo | cw (RPDO + SDO status)
                                              | sw (SDO + event TPDO) | ev (event
-                                             PDOs) | cyc (SYNC-cyclic TPDO, one bus
+                                             PDOs; layouts K / L: statusword in two
+                                             valid TPDOs, the carrier is not the
+                                             first) | cyc (SYNC-cyclic TPDO, one bus
                                              cycle per wait_for_reception) | cycr
                                              (cyclic RPDO task too) | free (timer
                                              TPDO sent by a free running thread)
@@ -47,11 +60,15 @@ Clause -> case family
                                              fam=hist    mode changes inside histories
                                              (cached 0x6502, cyclic RPDO)
 
-Excluded by construction (counted, genuine defects of the unchanged tree, see
-EXCL_RACE / EXCL_EDGE): D-C19-1 automatic transition between the library's 2nd and
-3rd status read; D-C19-2 fault reset without a rising edge of bit 7.
+Excluded by construction (counted, genuine defect of the unchanged tree, see
+EXCL_EVT): D-C19-3 statusword in an event-driven TPDO that was received twice
+(counts as periodic) + automatic transition 1 / 14 pending when a commandable
+target is assigned.  (D-C19-1 automatic transition between two status reads and
+D-C19-2 fault reset without a rising edge of bit 7 are repaired and searched.)
 Not covered: targets outside the 8 states ('DISABLE VOLTAGE', arbitrary strings);
-faults occurring *during* an assignment; k > 3; homing; the op_mode getter.
+faults occurring *during* an assignment; homing; the op_mode getter; a silent
+synchronous TPDO in front of the carrier together with k > 0 or a timer-only
+carrier (the library waits for the first TPDO that maps the statusword).
 """
 import struct
 import time
@@ -65,16 +82,25 @@ from harness.simbus import Frame, Hub
 
 PROPERTY = "C19"
 LEVEL = "exploration"
-RULE = ("decode: every 16-bit statusword, delivered by SDO read of 0x6041 or in a TPDO (three layouts), "
+RULE = ("decode: every 16-bit statusword, delivered by SDO read of 0x6041 or in a TPDO (three layouts with one "
+        "TPDO; two layouts with the statusword in two valid TPDOs, the word received last - by the second or by "
+        "the first of them - is the one that counts), "
         "node.state compared with the CiA 402 bit-pattern table (string patterns, 'UNKNOWN' when none "
-        "matches). pair: every (drive state, target) of the 8 x 8 states x k in 0..3 observations before "
-        "an automatic transition x 7 transports (SDO / mixed / event PDO / SYNC-cyclic PDO in lock-step / "
-        "cyclic RPDO / timer PDO from a free-running thread) x 4 free-status-bit sequences x PDO layout (incl. "
-        "invalid maps that carry the words, and the controlword mapped in two valid RPDOs) x "
+        "matches). pair: every (drive state, target) of the 8 x 8 states x k observations before "
+        "an automatic transition (statusword by SDO: every k in 0..24, 31, 40; bus cycles: 0..3, 5, 9, 14; "
+        "event-driven TPDO: 0..3, 9) x 7 transports (SDO / mixed / event PDO / SYNC-cyclic PDO in lock-step / "
+        "cyclic RPDO / timer PDO from a free-running thread) x 4 free-status-bit sequences (one for k > 3) x PDO "
+        "layout (incl. "
+        "invalid maps that carry the words, the controlword mapped in two valid RPDOs, the statusword mapped in "
+        "two valid TPDOs of which the first is silent or both report) x "
         "setup (configuration read by SDO or set by hand) x last controlword of the drive; oracle = "
         "reference drive's final state, its count of entries into OPERATION ENABLED during the assignment "
-        "and the controlwords it received. mode: 10 CiA 402 modes x all 1024 values of bits 0..9 of 0x6502; "
-        "oracle = independent mode -> (code, bit) table, writes to 0x6060 seen by the drive. hist: Hypothesis "
+        "and the controlwords it received; an uncommandable target must raise unless the drive is in that state "
+        "at the master's first look (a normal return after more than 8 SDO reads / 2 TPDO observations of a drive "
+        "in another state is not a refusal, even if the drive got there by itself meanwhile). mode: 10 CiA 402 modes x all 1024 values of bits 0..9 of 0x6502; "
+        "oracle = independent mode -> (code, bit) table, writes to 0x6060 seen by the drive. hist: enumerated "
+        "short histories on one node object (state x first target x second target; assignment, fault, assignment; "
+        "every ordered pair of modes x which of the two the drive advertises) and Hypothesis "
         "histories of assignments, faults (transition 13) and mode changes on one drive. Non-trivial: decode "
         "= word other than the 8 bare state values; pair = needs >= 2 transitions, involves an automatic "
         "transition or must be refused; mode = always; hist = >= 2 effective operations. Distinct = "
@@ -84,8 +110,24 @@ ASSUMPTIONS = [
     "codes 1..3) take place after k observations of the statusword (k = 0: immediately)",
     "target QUICK STOP ACTIVE is only demanded from drives whose quick-stop option keeps that state (5..8)",
     "at least one TPDO cycle has been received before the first assignment (the drive announces its TPDOs "
-    "after set-up); in event-driven PDO variants the drive answers within the write (k = 0)",
+    "after set-up); in event-driven PDO variants the drive answers a controlword within the write; an "
+    "automatic transition that takes k > 0 observations advances there with every SDO read of 0x6041 and with "
+    "every period the master spends waiting for a TPDO (PdoMap.receive_condition replaced by a stand-in whose "
+    "wait() lets that time pass and returns; the change is reported by event TPDO when it happens)",
+    "D-C19-3 (reported, excluded and counted): once an event-driven statusword TPDO has been received twice the "
+    "library treats it as periodic and gives up after TIMEOUT_CHECK_TPDO while an automatic transition 1 / 14 "
+    "is pending; histories with k > 0 on event-driven TPDOs let the drive send its TPDOs twice before the "
+    "first operation so that the excluded class is exactly 'commandable target assigned while that transition "
+    "is pending'; the single assignments of the pair family start after one TPDO (the library then reads 0x6041 "
+    "by SDO while it waits) and use drives that act on reception only, so that no second TPDO arrives before "
+    "the last wait: they are not affected",
+    "refusal: a state query may cost up to 8 SDO reads (one per state pattern) or use the last TPDO plus up to "
+    "2 fresh ones; a silent return for an uncommandable target is accepted as 'the drive is in that state' only "
+    "within that many observations of a drive in another state",
+    "statusword mapped in several valid TPDOs: the value of the TPDO received last is the drive's statusword",
     "mode 0 (NO MODE) needs no bit in 0x6502: CiA 402 defines the value 0 of 0x6060 for every drive",
+    "a supported mode: the code must reach the drive; a RuntimeError afterwards (op_mode documents it for a switch "
+    "that is not confirmed in time) is accepted, any other exception is not",
     "'refused' accepts any exception type; the state time-outs are canopen's own (0.4 s / 0.8 s) in the "
     "single-threaded variants (only TIMEOUT_CHECK_TPDO / TIMEOUT_SWITCH_OP_MODE are shortened: a frame that "
     "has not arrived when the library starts waiting never will) and are lengthened in the threaded one",
@@ -104,15 +146,22 @@ TRANSPORTS = {
     "sdo": (["none", "G"], 255, 255, None),
     "cw": (["CW"], 255, 255, None),
     "sw": (["SW"], 255, 255, None),
-    "ev": (["A", "B", "C", "D", "E", "F", "H", "I", "J"], 255, 255, None),
-    "cyc": (["A", "B", "C", "D"], 1, 255, "lockstep"),
+    "ev": (["A", "B", "C", "D", "E", "F", "H", "I", "J", "K", "L"], 255, 255, None),
+    "cyc": (["A", "B", "C", "D", "L"], 1, 255, "lockstep"),
     "cycr": (["A", "B", "C", "D"], 1, 1, "lockstep"),
-    "free": (["A", "B", "C", "D", "I", "J"], 255, 255, "free"),
+    "free": (["A", "B", "C", "D", "I", "J", "L"], 255, 255, "free"),
 }
 TR_GROUP = {"sdo": "sdo-status", "cw": "sdo-status", "sw": "event-tpdo", "ev": "event-tpdo",
             "cyc": "cyclic-tpdo", "cycr": "cyclic-tpdo", "free": "timer-tpdo-thread"}
-# transports in which an automatic transition can be delayed by k > 0 observations
-K_TRANSPORTS = ("sdo", "cw", "cyc", "cycr")
+# transports in which an automatic transition can be delayed by k > 0 observations.  sw / ev: the
+# statusword comes by event-driven TPDO; an observation is an SDO read of 0x6041 or a stretch of
+# time in which the master waits for a TPDO (R.RefDrive402.idle_slice)
+K_TRANSPORTS = ("sdo", "cw", "cyc", "cycr", "sw", "ev")
+EV_K_TRANSPORTS = ("sw", "ev")
+# layouts whose first valid TPDO with the statusword is a synchronous one that never comes
+SILENT_FIRST = ("K",)
+# layouts that can only be configured by reading them from the drive
+READ_ONLY_LAYOUTS = ("E", "F", "G", "H", "I", "J", "K")
 
 
 _ods = {}
@@ -148,6 +197,10 @@ class Rig:
         k = case.get("k", 0)
         if k and tr not in K_TRANSPORTS:
             raise BadCase(f"k={k} with transport {tr}")
+        if k and tr in EV_K_TRANSPORTS:
+            if layout in SILENT_FIRST or case.get("evt"):
+                raise BadCase(f"k={k} with transport {tr}, layout {layout}, evt {case.get('evt')}")
+            thread = "evstep"
         self.tr = tr
         self.thread_mode = thread
         self.hub = Hub()
@@ -181,7 +234,7 @@ class Rig:
             node.TIMEOUT_SWITCH_STATE_SINGLE = 5.0
             node.TIMEOUT_SWITCH_STATE_FINAL = 0.2
         node.nmt.state = "OPERATIONAL"
-        if case.get("setup", "read") == "read" or layout in ("E", "F", "G", "H", "I", "J"):
+        if case.get("setup", "read") == "read" or layout in READ_ONLY_LAYOUTS:
             try:
                 node.setup_402_state_machine(read_pdos=True)
             except Exception as e:
@@ -214,6 +267,10 @@ class Rig:
                         raise SetupFailed(f"setup_402_state_machine(read_pdos=False) changed {kind}[{n}] from "
                                           f"{want} to {got}")
         self.sw_by_sdo = not any(i == 0x6041 for e in self.drive.layout["tpdo"].values() for i, _b in e)
+        # the first valid TPDO that maps the statusword (None: the statusword goes by SDO)
+        valid = dict(self.drive.layout.get("tpdo_sync", {}))
+        valid.update(self.drive.layout["tpdo"])
+        self.sw_tpdo = min((n for n, e in valid.items() if any(i == 0x6041 for i, _b in e)), default=None)
         self.feeder = None
         if tr == "cycr":
             # the application fills the RPDOs with the values in force, then starts them;
@@ -227,11 +284,20 @@ class Rig:
                     m.start(0.001)
         # the setup traffic is not part of what is judged
         self.drive.sw_reads = 0
-        self.drive.announce()
+        del self.drive.observed[:]
+        self.drive.tpdo_sent.clear()
+        for _ in range(case.get("announce", 1)):
+            self.drive.announce()
         if thread == "lockstep":
             for m in node.tpdo.values():
                 if m.enabled:
                     m.receive_condition = R.LockstepCondition(self.cycle)
+        elif thread == "evstep":
+            # event-driven TPDOs and an automatic transition that takes its time: while the master
+            # waits for a TPDO, time passes for the drive (single-threaded, deterministic)
+            for m in node.tpdo.values():
+                if m.enabled:
+                    m.receive_condition = R.LockstepCondition(self.drive.idle_slice)
         elif thread == "free":
             self.feeder = R.Feeder(self.drive, self.hub)
             self.feeder.start()
@@ -268,6 +334,7 @@ def _assign(rig, target, D, tag):
     n_cw = len(drive.controlwords)
     n_en = drive.enables
     n_tr = len(drive.trace)
+    n_obs = len(drive.observed)
     exc = None
     try:
         rig.node.state = target
@@ -303,10 +370,28 @@ def _assign(rig, target, D, tag):
             D.append(Discrepancy("C19/refuse/controlword-sent", how))
         elif exc is None and drive.state != target:
             D.append(Discrepancy("C19/refuse/accepted", f"{how} - no exception"))
+        elif exc is None and rig.thread_mode != "free":
+            # a silent return is only the accepted "the drive is in that state already" when the
+            # master's first look at the drive can have shown the target: not when it went on
+            # looking at a drive in another state until an automatic transition took it there
+            waited = sum(1 for s in drive.observed[n_obs:] if s != target)
+            if waited > (REFUSE_LOOKS_SDO if rig.sw_by_sdo else REFUSE_LOOKS_PDO):
+                D.append(Discrepancy("C19/refuse/accepted",
+                                     f"{how} - no exception: the assignment was made while the drive was in {pre}, "
+                                     f"the master watched it in other states than {target} for {waited} statusword "
+                                     f"observations and returned normally when it got there by itself"))
     if drive.bad_access:
         D.append(Discrepancy("C19/access", f"{how} - drive saw {drive.bad_access[:3]}"))
     autos = sum(1 for _s, c in steps if c.startswith("auto"))
     return {"pre": pre, "ncw": len(cws), "nsteps": len(steps) - autos, "autos": autos}
+
+
+# statusword observations of a drive that is not in the (uncommandable) target state after which
+# a silent return no longer passes for "the drive is in that state already": one determination of
+# the state may cost one SDO read per state pattern (8); with the statusword in a TPDO the master
+# already holds a complete word when the assignment starts and may look at up to two fresh ones
+REFUSE_LOOKS_SDO = 8
+REFUSE_LOOKS_PDO = 2
 
 
 def _brief(items, n=12):
@@ -341,6 +426,10 @@ def run_pair(case):
             return Outcome(excluded=EXCL_RACE)
         if _edge_excluded(rig.drive, target):
             return Outcome(excluded=EXCL_EDGE)
+        if rig.thread_mode == "evstep" and case.get("lvl"):
+            raise BadCase("pair with k > 0 on event-driven TPDOs is only generated for drives that act on reception")
+        if _evt_excluded(rig, target) and not case.get("no_excl"):
+            return Outcome(excluded=EXCL_EVT)
         D = []
         facts = _assign_k(rig, target, D, "pair")
         if rig.feeder is not None and rig.feeder.error is not None:
@@ -385,6 +474,26 @@ def _edge_excluded(drive, target):
     return False
 
 
+def _evt_excluded(rig, target):
+    """Defect D-C19-3 (reported): PdoMap takes every TPDO it has received twice for a periodic
+    one (PdoMap.period is set from the distance of two receptions), also an event-driven TPDO
+    (transmission type 254 / 255) that only comes when a mapped object changes.  From then on
+    check_statusword() demands a TPDO within TIMEOUT_CHECK_TPDO (0.2 s) instead of reading
+    0x6041 by SDO: an assignment that has to wait for an automatic transition (1: NOT READY TO
+    SWITCH ON -> SWITCH ON DISABLED, 14: FAULT REACTION ACTIVE -> FAULT) raises RuntimeError
+    ('Timeout waiting for updated statusword') although the drive makes the transition within
+    the per-step limit (TIMEOUT_SWITCH_STATE_SINGLE = 0.4 s).  The same drive with the
+    statusword by SDO, or before the second TPDO was received, is handled correctly."""
+    drive = rig.drive
+    return (rig.thread_mode == "evstep" and target in R.COMMANDABLE
+            and drive.state in (R.NRTSO, R.FRA) and bool(drive.auto_left)
+            and drive.tpdo_sent.get(rig.sw_tpdo, 0) >= 2)
+
+
+EXCL_EVT = ("D-C19-3: statusword in an event-driven TPDO that was received twice before (PdoMap.period set, "
+            "the map counts as periodic), drive in NOT READY TO SWITCH ON / FAULT REACTION ACTIVE whose "
+            "automatic transition is still pending: check_statusword waits TIMEOUT_CHECK_TPDO for a TPDO "
+            "instead of reading by SDO -> RuntimeError")
 EXCL_RACE = ("D-C19-1: statusword by SDO, drive leaves NOT READY TO SWITCH ON between the 2nd and 3rd "
              "status read of the assignment (k=2) -> ValueError")
 EXCL_EDGE = ("D-C19-2: drive in FAULT (REACTION ACTIVE) whose last controlword already has bit 7 set: "
@@ -403,10 +512,24 @@ def _decode_rig(via):
         elif via == "sdoG":
             rig = Rig({"tr": "sdo", "layout": "G"}, force_sw=0)
         else:
-            rig = Rig({"tr": "ev", "layout": {"tpdo0": "A", "tpdo1": "C", "tpdo4": "D"}[via],
-                       "setup": "manual" if via == "tpdo1" else "read"})
+            rig = Rig({"tr": "ev", "layout": DECODE_TPDO[via][0],
+                       "setup": "manual" if via in ("tpdo1", "tpdoL1") else "read"})
         _decode_rigs[via] = rig
     return rig
+
+
+# carrier -> (layout, [(TPDO number, bytes in front of the statusword, bytes behind it, which word)]):
+# a different word first ("old"), so that a stale value cannot pass.  tpdoK / tpdoL2 / tpdoL1: the
+# statusword is mapped in two valid TPDOs; the word that counts is the one received last, whichever
+# of the two TPDOs brought it (K: the first one is synchronous and never comes)
+DECODE_TPDO = {
+    "tpdo0": ("A", [(1, b"", b"", "old"), (1, b"", b"", "new")]),
+    "tpdo1": ("C", [(1, b"\x07", b"", "old"), (1, b"\x07", b"", "new")]),
+    "tpdo4": ("D", [(3, b"\x11\x22\x33\x44", b"", "old"), (3, b"\x11\x22\x33\x44", b"", "new")]),
+    "tpdoK": ("K", [(2, b"", b"\x03", "old"), (2, b"", b"\x03", "new")]),
+    "tpdoL2": ("L", [(2, b"\x01", b"", "old"), (1, b"", b"", "old"), (2, b"\x01", b"", "new")]),
+    "tpdoL1": ("L", [(1, b"", b"", "old"), (2, b"\x06", b"", "old"), (1, b"", b"", "new")]),
+}
 
 
 def run_decode(case):
@@ -417,10 +540,9 @@ def run_decode(case):
     if via in ("sdo", "sdoG"):
         rig.drive.force_sw = sw
     else:
-        n, prefix = {"tpdo0": (1, b""), "tpdo1": (1, b"\x07"), "tpdo4": (3, b"\x11\x22\x33\x44")}[via]
-        # a different word first, so that a stale value cannot pass
-        for word in (sw ^ 0xFFFF, sw):
-            rig.hub.inject(Frame(R.TPDO_BASE[n - 1] + NODE, prefix + struct.pack("<H", word)))
+        for n, prefix, suffix, which in DECODE_TPDO[via][1]:
+            word = sw if which == "new" else sw ^ 0xFFFF
+            rig.hub.inject(Frame(R.TPDO_BASE[n - 1] + NODE, prefix + struct.pack("<H", word) + suffix))
     try:
         got = rig.node.state
     except Exception as e:
@@ -470,7 +592,9 @@ def _set_mode(rig, mode, D, tag, probe):
         elif exc is None:
             D.append(Discrepancy("C19/mode/unsupported-accepted", f"{what}: not advertised, no exception"))
     else:
-        if exc is not None:
+        # RuntimeError is what op_mode documents for a switch that is not confirmed in time; the
+        # property only demands that the code is written: judged below like a normal return
+        if exc is not None and not isinstance(exc, RuntimeError):
             D.append(Discrepancy(f"C19/mode/supported-raises/{type(exc).__name__}",
                                  f"{what}: advertised, but {type(exc).__name__}: {exc}"))
         elif not writes and not (rig.tr == "cycr" and drive.mode_rx == code):
@@ -511,6 +635,8 @@ def run_hist(case):
                     return Outcome(excluded=EXCL_RACE)
                 if _edge_excluded(rig.drive, op["target"]):
                     return Outcome(excluded=EXCL_EDGE)
+                if _evt_excluded(rig, op["target"]) and not case.get("no_excl"):
+                    return Outcome(excluded=EXCL_EVT)
                 if op["target"] == R.QSA and rig.drive.qs == "auto":
                     raise BadCase("target QSA with qs=auto")
                 facts = _assign_k(rig, op["target"], D, tag)
@@ -587,6 +713,17 @@ CW_CONSISTENT = {
 }
 
 
+def k_values(tr, tier):
+    """Observations of a transient state before its automatic transition.  With the statusword by
+    SDO every value up to 24 (the library makes several reads per assignment step: the transition is
+    swept across each of them) and two long ones; bus cycles / waiting periods: a sparser set."""
+    if tr in ("sdo", "cw"):
+        return list(range(1, 25)) + [31, 40]
+    if tr in ("cyc", "cycr"):
+        return list(range(1, 17)) + [25] if tier == "thorough" else [1, 2, 3, 5, 9, 14]
+    return [1, 2, 3, 4, 6, 9, 14] if tier == "thorough" else [1, 2, 3, 9]
+
+
 def pair_cases(tier):
     i = 0
     for tr, (layouts, _t, _r, _th) in TRANSPORTS.items():
@@ -595,24 +732,27 @@ def pair_cases(tier):
                 variants = [("stay", 0)]
                 if tr in K_TRANSPORTS:
                     if start in (R.NRTSO, R.FRA):
-                        variants += [("stay", 1), ("stay", 2), ("stay", 3)]
+                        variants += [("stay", k) for k in k_values(tr, tier)]
                     elif tier == "thorough":
                         variants += [("stay", 2)]
                     if start == R.QSA and target not in (R.QSA, R.OE):
-                        variants += [("auto", 1), ("auto", 2), ("auto", 3)]
+                        variants += [("auto", k) for k in k_values(tr, tier)]
                 for qs, k in variants:
                     for ei, extras in enumerate(EXTRAS):
+                        if k > 3 and tier != "thorough" and ei != k % len(EXTRAS):
+                            continue    # the long delays: one status-bit sequence each
                         i += 1
+                        usable = [lay for lay in layouts if not (k and tr in EV_K_TRANSPORTS and lay in SILENT_FIRST)]
                         if tier == "thorough":
-                            combos = [(lay, su) for lay in layouts for su in ("read", "manual")]
+                            combos = [(lay, su) for lay in usable for su in ("read", "manual")]
                         else:
-                            combos = [(layouts[i % len(layouts)], "manual" if (i // 3) % 2 else "read")]
+                            combos = [(usable[i % len(usable)], "manual" if (i // 3) % 2 else "read")]
                         for layout, setup in combos:
                             case = {"fam": "pair", "tr": tr, "start": start, "target": target, "k": k,
                                     "extras": extras, "qs": qs, "layout": layout, "setup": setup}
                             if (i // 7) % 3 == 1 and tr in ("ev", "cw", "sw"):
                                 case["ev_tt"] = 254
-                            if (i // 5) % 3 == 0 and tr != "sdo":
+                            if (i // 5) % 3 == 0 and tr != "sdo" and not (k and tr in EV_K_TRANSPORTS):
                                 # a non-zero event timer / reception deadline changes nothing for the master
                                 case["evt"] = 100
                             if tr == "sdo":
@@ -621,7 +761,10 @@ def pair_cases(tier):
                             # lvl: the drive evaluates the latched controlword again in every new state
                             if ei in (1, 2):
                                 case["cw0"] = CW_CONSISTENT[start][(i // 4) % len(CW_CONSISTENT[start])]
-                                case["lvl"] = ei == 2
+                                # (event-driven TPDO and k > 0: a drive that moves on by itself after its
+                                # automatic transition makes the master wait with a TPDO it has received
+                                # twice by then - D-C19-3 again, see EXCL_EVT)
+                                case["lvl"] = ei == 2 and not (k and tr in EV_K_TRANSPORTS)
                             yield case
         # D-C19-2: a drive in FAULT that still holds a controlword with bit 7 set
         for target in R.COMMANDABLE:
@@ -631,7 +774,7 @@ def pair_cases(tier):
 
 
 def decode_cases(tier):
-    vias = ["tpdo0", "sdo", "tpdo1", "tpdo4", "sdoG"]
+    vias = ["tpdo0", "sdo", "tpdo1", "tpdo4", "sdoG", "tpdoK", "tpdoL2", "tpdoL1"]
     for sw in range(65536):
         if tier == "thorough":
             for via in vias:
@@ -641,7 +784,7 @@ def decode_cases(tier):
             # every low byte with three high bytes, plus a sparse sweep, over the other carriers
             hi = sw >> 8
             if hi in (0x00, 0xFF, 0x52) or sw % 7 == 0:
-                yield {"fam": "decode", "sw": sw, "via": vias[1 + (sw + hi) % 4]}
+                yield {"fam": "decode", "sw": sw, "via": vias[1 + (sw + hi) % 7]}
 
 
 def _upper_bits(mode_i, low):
@@ -667,6 +810,53 @@ def mode_cases(tier):
             yield case
 
 
+def seq_cases(tier):
+    """Short enumerated histories on one node object: every (state, first target, second target),
+    a fault between two assignments, every ordered pair of operation modes against drives that
+    advertise one, both or none of them (what the object remembers from the first operation must not
+    leak into the second)."""
+    seq_tr = ["sdo", "ev", "cyc", "cw", "sw", "cycr", "free"] if tier == "thorough" else \
+             ["sdo", "ev", "cyc", "cw", "sw", "cycr"]
+    i = 0
+
+    def base(tr, start, k, ops):
+        layouts = TRANSPORTS[tr][0]
+        return {"fam": "hist", "tr": tr, "layout": layouts[i % len(layouts)],
+                "setup": "manual" if (i // 2) % 2 else "read", "start": start,
+                "k": k if tr in ("sdo", "cw", "cyc", "cycr") else 0, "extras": EXTRAS[i % len(EXTRAS)],
+                "qs": "stay", "supported": 0x3EF, "display0": 0, "lvl": False,
+                "cw0": CW_CONSISTENT[start][0], "ops": ops}
+
+    for start in R.STATES:
+        for t1 in R.COMMANDABLE:
+            for t2 in R.STATES:
+                for tr in (seq_tr if tier == "thorough" else [seq_tr[i % len(seq_tr)]]):
+                    yield base(tr, start, [0, 2, 7][i % 3],
+                               [{"op": "set", "target": t1}, {"op": "set", "target": t2}, {"op": "get"}])
+                i += 1
+    for t1 in R.COMMANDABLE:
+        for t2 in R.STATES:
+            for k in (0, 1, 7):
+                for tr in (seq_tr if tier == "thorough" else [seq_tr[i % len(seq_tr)]]):
+                    yield base(tr, R.SOD, k, [{"op": "set", "target": t1}, {"op": "fault"},
+                                              {"op": "set", "target": t2}, {"op": "get"}])
+                i += 1
+    for m1 in R.MODE_NAMES:
+        for m2 in R.MODE_NAMES:
+            for which in (1, 2, 3, 0):
+                bits = 0
+                for w, m in ((1, m1), (2, m2)):
+                    if which & w and R.MODES[m][1] is not None:
+                        bits |= 1 << R.MODES[m][1]
+                tr, layout = [("sdo", "none"), ("ev", "B"), ("ev", "M"), ("cycr", "C"), ("ev", "L")][i % 5]
+                case = base(tr, R.SOD, 0, [{"op": "mode", "mode": m1, "probe": bool(i % 2)},
+                                           {"op": "mode", "mode": m2, "probe": bool((i // 2) % 2)}])
+                case.update(layout=layout, supported=bits | (_upper_bits(i % 10, bits) if i % 3 else 0),
+                            display0=[0, 1, 3, 6][i % 4])
+                yield case
+                i += 1
+
+
 @st.composite
 def hist_case(draw):
     tr = draw(st.sampled_from(["sdo", "sdo", "cw", "sw", "ev", "ev", "cyc", "cycr", "free"]))
@@ -674,14 +864,21 @@ def hist_case(draw):
     case = {"fam": "hist", "tr": tr, "layout": draw(st.sampled_from(layouts)),
             "setup": draw(st.sampled_from(["read", "manual"])),
             "start": draw(st.sampled_from(R.STATES)),
-            "k": draw(st.integers(0, 3)) if tr in K_TRANSPORTS else 0,
+            "k": draw(st.integers(0, 9) if tr in ("sdo", "cw") else st.integers(0, 6) if tr in ("cyc", "cycr")
+                      else st.sampled_from([0, 0, 1, 2, 3]) if tr in EV_K_TRANSPORTS else st.just(0)),
             "extras": draw(st.one_of(st.sampled_from(EXTRAS),
                                      st.lists(st.integers(0, 0xFFFF), min_size=1, max_size=4))),
             "qs": "stay",
             "supported": draw(st.integers(0, 0xFFFFFFFF)),
             "display0": draw(st.sampled_from([0, 1, 3, 6, 8])),
             "lvl": draw(st.booleans())}
-    if tr != "sdo" and draw(st.integers(0, 2)) == 0:
+    if case["k"] and tr in EV_K_TRANSPORTS:
+        # event-driven TPDOs and automatic transitions that take their time; the drive has sent its
+        # TPDOs twice before the master's first action (see EXCL_EVT)
+        case["announce"] = 2
+        if case["layout"] in SILENT_FIRST:
+            case["layout"] = "A"
+    elif tr != "sdo" and draw(st.integers(0, 2)) == 0:
         case["evt"] = draw(st.sampled_from([1, 100, 0xFFFF]))
     if tr in ("ev", "cw", "sw", "free") and draw(st.integers(0, 2)) == 0:
         case["ev_tt"] = 254
@@ -714,6 +911,25 @@ def showcase():
            "qs": "stay", "layout": "C", "setup": "manual"}
     yield {"fam": "pair", "tr": "free", "start": R.OE, "target": R.FAULT, "k": 0, "extras": [0xFFFF],
            "qs": "stay", "layout": "B", "setup": "read", "cw0": 0xF}
+    # a long fault reaction: the refusal of target FAULT must not turn into waiting for transition 14
+    yield {"fam": "pair", "tr": "sdo", "start": R.FRA, "target": R.FAULT, "k": 17, "extras": ex, "qs": "stay",
+           "layout": "none", "setup": "read", "od_pdo": False}
+    yield {"fam": "pair", "tr": "cw", "start": R.FRA, "target": R.SO, "k": 13, "extras": [0], "qs": "stay",
+           "layout": "CW", "setup": "read"}
+    yield {"fam": "pair", "tr": "sdo", "start": R.QSA, "target": R.RTSO, "k": 10, "extras": [0], "qs": "auto",
+           "layout": "none", "setup": "read", "od_pdo": True}
+    # the statusword in two valid TPDOs; the first one is synchronous and never comes
+    yield {"fam": "pair", "tr": "ev", "start": R.SOD, "target": R.OE, "k": 0, "extras": ex, "qs": "stay",
+           "layout": "K", "setup": "read"}
+    yield {"fam": "pair", "tr": "ev", "start": R.OE, "target": R.RTSO, "k": 0, "extras": [0xFFFF], "qs": "stay",
+           "layout": "L", "setup": "manual"}
+    # event-driven TPDO and a fault reaction that takes its time
+    yield {"fam": "pair", "tr": "ev", "start": R.FRA, "target": R.SOD, "k": 3, "extras": ex, "qs": "stay",
+           "layout": "B", "setup": "read"}
+    yield {"fam": "hist", "tr": "sw", "layout": "SW", "setup": "read", "start": R.OE, "k": 1, "extras": [0],
+           "qs": "stay", "supported": 0x3EF, "display0": 0, "lvl": False, "cw0": 0xF, "announce": 2,
+           "ops": [{"op": "set", "target": R.SO}, {"op": "fault"}, {"op": "get"}, {"op": "set", "target": R.FAULT},
+                   {"op": "set", "target": R.SOD}]}
     # a slow drive: every controlword takes 0.08 s, multi-step changes take longer than the
     # no-progress limit (0.2 s) - each step is still far inside the per-step limit
     for start, target in ((R.FAULT, R.OE), (R.SOD, R.OE), (R.SOD, R.QSA), (R.OE, R.RTSO)):
@@ -721,6 +937,9 @@ def showcase():
                "layout": "none", "setup": "read", "od_pdo": False, "cw_latency": 0.08}
     yield {"fam": "decode", "sw": 0x5237, "via": "sdo"}
     yield {"fam": "decode", "sw": 0xFF5F, "via": "tpdo4"}
+    yield {"fam": "decode", "sw": 0x0637, "via": "tpdoK"}
+    yield {"fam": "decode", "sw": 0x1250, "via": "tpdoL2"}
+    yield {"fam": "decode", "sw": 0x8008, "via": "tpdoL1"}
     yield {"fam": "mode", "tr": "sdo", "layout": "none", "mode": "HOMING", "supported": 0xA5000020,
            "probe": True, "display0": 1, "kmode": 2, "setup": "read"}
     yield {"fam": "mode", "tr": "ev", "layout": "M", "mode": "CYCLIC SYNCHRONOUS TORQUE",
@@ -739,7 +958,9 @@ def search(ctx):
     ctx.enumerate(showcase())
     ctx.enumerate(pair_cases(ctx.tier), "8 x 8 (state, target) pairs x transports x k x status-bit patterns")
     ctx.enumerate(mode_cases(ctx.tier), "10 operation modes x all 1024 values of bits 0..9 of 0x6502")
+    ctx.enumerate(seq_cases(ctx.tier), "two assignments / assignment, fault, assignment / two mode changes on one "
+                                       "node object")
     ctx.enumerate(decode_cases(ctx.tier),
-                  "all 65536 statuswords" + (" over 4 carriers" if thorough else
-                                             " by TPDO; sparse sweep over SDO and two more TPDO layouts"))
+                  "all 65536 statuswords" + (" over 8 carriers" if thorough else
+                                             " by TPDO; sparse sweep over SDO and five more TPDO layouts / orders"))
     ctx.hypothesis(hist_case(), 6000 if thorough else 500)
